@@ -165,6 +165,18 @@ def run_case(case, ctx):
     for vi in range(len(spec.variants)):
         A = spec.data(numpy.random.RandomState(sub + 1))
         B = spec.data_b(numpy.random.RandomState(sub + 2))
+        if (sub + vi) % 2 and spec.kind == "xy" and not spec.no_weights and "y" in A and "y" in B:
+            # non-uniform sample weights in every fit of the histories (half of the cases)
+            try:
+                probe_ = spec.make(vi)
+                Aw = dict(A, w=numpy.random.RandomState(sub + 4).rand(len(A["y"])) * 3 + 0.2)
+                numpy.random.seed(sub + 17)
+                spec.fit(probe_, _copy(Aw))
+                A = Aw
+                B = dict(B, w=numpy.random.RandomState(sub + 5).rand(len(B["y"])) * 3 + 0.2)
+                ctx.cls("weighted-histories")
+            except Exception:
+                pass
         # F = a fit that fails (an invalid-input class of C02 the estimator refuses), between two good ones
         from vrt.props.c02 import invalid_datasets
         try:
@@ -361,6 +373,26 @@ def run_case(case, ctx):
             spec.fit(e2, _copy(B))
             spec.outputs(e2, spec.query(numpy.random.RandomState(9), B))
             o1b, s1b = spec.outputs(e1, QA), state(e1)
+            # ... and neither does refitting a SHALLOW copy of the first one on other values of the same shape (fit
+            # binds new arrays, it does not write into the ones a copy shares)
+            import copy as _copymod
+            try:
+                if any(hasattr(v_, "get_params") or (isinstance(v_, list) and v_ and hasattr(v_[0], "get_params"))
+                       for v_ in e1.get_params(deep=False).values()):
+                    # a wrapper that fits the estimator object it was given in place shares it with its shallow copy
+                    raise RuntimeError("estimator-valued parameter")
+                e3 = _copymod.copy(e1)
+                numpy.random.seed(sub + 19)
+                spec.fit(e3, _copy(Cset if "w" not in A else dict(Cset, w=A["w"])))
+                o1c = spec.outputs(e1, QA)
+                ctx.hit("two_instances.shallow_copy")
+                badc = [m for m in o1 if m not in o1c or not exact(o1[m], o1c[m])]
+                if badc:
+                    ctx.violation(K + "two-instances/first-changed-by-refit-of-shallow-copy", "refitting copy.copy(model) on "
+                                  "other data of the same shape changed %s of the model itself: fit wrote into an array "
+                                  "the two share" % badc[0], cfg=cfg)
+            except Exception:
+                ctx.excluded("shallow copy cannot be refitted")
             ctx.hit("two_instances")
             bad = [m for m in o1 if m not in o1b or not exact(o1[m], o1b[m])]
             if bad:
